@@ -75,7 +75,9 @@ def run_tlc(module, cfg, workers=16, timeout=600, env=None, extra=(), files=None
     cfgname = module + ".gen.cfg"
     with open(os.path.join(d, cfgname), "w") as fh:
         fh.write(cfg)
-    jopts = ["-XX:+UseParallelGC", "-Xmx" + heap]
+    jtmp = os.path.join(d, "jtmp")          # TLC / SANY leave tlc-* and SANY* directories in java.io.tmpdir: keep them inside the scratch directory
+    os.makedirs(jtmp, exist_ok=True)
+    jopts = ["-XX:+UseParallelGC", "-Xmx" + heap, "-Djava.io.tmpdir=" + jtmp]
     if depth_first:
         jopts.append("-Dtlc2.tool.queue.IStateQueue=StateDeque")
     cmd = ["java"] + jopts + ["-cp", JAR, "tlc2.TLC", "-workers", str(workers), "-metadir", os.path.join(d, "meta"),
@@ -128,6 +130,7 @@ def run_tlc(module, cfg, workers=16, timeout=600, env=None, extra=(), files=None
         res["error"] = out[-3000:]
     if timed and not simulate:
         res["error"] = "TLC timed out after %ss" % timeout
+    shutil.rmtree(jtmp, ignore_errors=True)
     if not keep and cwd is None:
         shutil.rmtree(os.path.join(d, "meta"), ignore_errors=True)
     return res
@@ -186,8 +189,12 @@ def counterexample(out):
 
 
 def sany(path):
-    p = subprocess.run(["java", "-cp", JAR, "tla2sany.SANY", os.path.basename(path)], cwd=os.path.dirname(path),
-                       stdout=subprocess.PIPE, stderr=subprocess.STDOUT, text=True)
+    jtmp = tempfile.mkdtemp(prefix="operon-verif.sany.", dir=os.environ.get("VERIF_TMP", "/tmp"))
+    try:
+        p = subprocess.run(["java", "-Djava.io.tmpdir=" + jtmp, "-cp", JAR, "tla2sany.SANY", os.path.basename(path)], cwd=os.path.dirname(path),
+                           stdout=subprocess.PIPE, stderr=subprocess.STDOUT, text=True)
+    finally:
+        shutil.rmtree(jtmp, ignore_errors=True)
     ok = p.returncode == 0 and "Semantic errors" not in p.stdout and "***Parse Error***" not in p.stdout and "Fatal" not in p.stdout
     return ok, p.stdout
 
